@@ -15,6 +15,8 @@
 (*  parse    a spelling darklua's parser accepted has the value FOfDecimal(spelling); hex and  *)
 (*           binary literals that need more than 64 bits are undecided (Luau saturates, see    *)
 (*           harness/luaparse number.rs)                                                      *)
+(*  src      a string literal of the SOURCE that darklua's parser accepted has the value the     *)
+(*           reference lexer gives it under Luau rules (every escape, `\z`, long brackets)       *)
 (*  model_ok (DRIFT, strings) the text contains exactly Literals!WriteString(value)           *)
 EXTENDS Literals, IEEE754, LuaStr, Json, IOUtils, FiniteSets
 Obs == ndJsonDeserialize(IOEnv.OBS)
@@ -105,6 +107,15 @@ JudgeParse(o) ==
   LET same == accepted /\ ~und /\ FOfDecimal(o.text) = <<o.hi, o.lo>> IN
   [id |-> o.id, kind |-> o.kind, ok |-> ~accepted \/ und \/ same, n |-> 1, okv |-> <<~accepted \/ und \/ same>>,
    luau_ok |-> TRUE, l51_ok |-> TRUE, exempt51 |-> FALSE, value_ok |-> same, model_ok |-> TRUE, undecided |-> und \/ ~accepted]
-Judge(o) == IF o.kind = "str" THEN JudgeStr(o) ELSE IF o.kind = "parse" THEN JudgeParse(o) ELSE JudgeNum(o)
+\* ---- source spellings of strings: the value darklua's reader gave the literal (o.val) is the value the reference lexer
+\* (Luau rules) gives it; spellings the reference lexer rejects, or darklua's parser rejects, are undecided (C12's subject)
+JudgeSrc(o) ==
+  LET accepted == o.status = "ok" IN
+  LET r == Lex(B(o.b), TRUE) IN
+  LET one == r.ok /\ Len(Code(r)) = 1 /\ Code(r)[1].k = "str" IN
+  LET same == accepted /\ one /\ Code(r)[1].v = B(o.val) IN
+  [id |-> o.id, kind |-> o.kind, ok |-> ~accepted \/ ~one \/ same, n |-> 1, okv |-> <<~accepted \/ ~one \/ same>>,
+   luau_ok |-> TRUE, l51_ok |-> TRUE, exempt51 |-> FALSE, value_ok |-> same, model_ok |-> TRUE, undecided |-> ~accepted \/ ~one]
+Judge(o) == IF o.kind = "str" THEN JudgeStr(o) ELSE IF o.kind = "parse" THEN JudgeParse(o) ELSE IF o.kind = "src" THEN JudgeSrc(o) ELSE JudgeNum(o)
 Emit == EmitLine("VERDICT " \o JsonOf(Judge(Obs[i])))
 =============================================================================
